@@ -116,6 +116,9 @@ func init() {
 
 		// ---- time ---------------------------------------------------------------
 		"time.Now": extTimeNow,
+		// randomness is an arbitrary value
+		"math/rand.runtime_rand":    extRuntimeRand,
+		"math/rand/v2.runtime_rand": extRuntimeRand,
 		"time.now": func(fr *frame, a []value) value { panic(unsupported{"time.now (runtime clock)"}) },
 		"time.runtimeNano": func(fr *frame, a []value) value { return int64(0) },
 
@@ -365,6 +368,17 @@ func errorsAs(fr *frame, err, target iface) value {
 // methods are called through the interpreter. Symbolic strings keep their
 // bytes; a symbolic integer is rendered as the placeholder "<sym>" (the text
 // is then approximate: recorded as stub "fmt:approx").
+func extRuntimeRand(fr *frame, a []value) value {
+	stubHit(fr, "math/rand(arbitrary value)")
+	p := fr.i.path
+	if p == nil {
+		return uint64(4)
+	}
+	t := p.fresh("rand", 64)
+	p.nondets = append(p.nondets, nondetRec{Tag: "rand", Kind: "u64", terms: []*Term{t}})
+	return sym{t, types.Uint64}
+}
+
 func formatValue(fr *frame, verb rune, flags string, x iface) value {
 	return formatValueAt(fr, verb, flags, x, 0)
 }
